@@ -340,10 +340,102 @@ func c18(c *core.Ctx) {
 		rW.Check(ok, sum.Key+":create-inside-ownership", sum.Decl.Pos(), "creation dominated by taking the waiter", "the swamp is created before the per-name waiter is owned")
 	}
 
-	rR := c.Rule("C18.refcount", "the per-name waiter slot is removed only when its reference count reaches zero: on every path through SummonSwamp the count is incremented exactly once and decremented exactly once (directly before an early return, or by the deferred release registered on that path); count/retired/ready are touched only under the waiter's lock (or atomically); the slot deletion is guarded by count==0 and marks the waiter retired in the same critical section; a caller checks 'retired' under the lock before it takes its reference", 5)
+	rR := c.Rule("C18.refcount", "the per-name waiter slot is removed only when its reference count reaches zero: on every path through SummonSwamp the count changes by exactly +1 and -1 (directly or through a helper that is summarised by its uniform net change; the deferred release counts on the paths that registered it); count/retired/ready are touched only under the waiter's lock (helpers: held by every caller); every slot deletion is guarded by count==0 and marks the waiter retired next to it; the reference is taken only on a waiter tested !retired; and 'ready' is cleared only by the caller that set it (the owner)", 5)
 	{
 		countF := p.MustField(pkgHydra, "SwampWaiter", "count")
+		readyF := p.MustField(pkgHydra, "SwampWaiter", "ready")
 		slotsF := p.MustField(pkgHydra, "hydra", "summoningSwamps")
+		wst := mustStruct(p, pkgHydra, "SwampWaiter")
+		retiredF := core.StructFields(wst)["retired"]
+		wfields := map[*types.Var]bool{countF: true, readyF: true}
+		if retiredF != nil {
+			wfields[retiredF] = true
+		}
+		isDelForm := func(a core.Access) bool {
+			return a.Field == slotsF && (a.Form == "method:Delete" || a.Form == "method:LoadAndDelete" || a.Form == "method:Clear" || a.Form == "method:CompareAndDelete")
+		}
+		// helpers: other functions of the package that touch the waiter's fields through a *SwampWaiter parameter
+		type helperSum struct {
+			f          *core.Func
+			param      int
+			net        int
+			uniform    bool
+			clearsRdy  bool
+			paramName  string
+		}
+		helpers := map[*core.Func]*helperSum{}
+		for _, f := range p.FuncsIn(pkgHydra) {
+			if f == sum || f.Decl.Body == nil {
+				continue
+			}
+			sig := f.Obj.Type().(*types.Signature)
+			pi := -1
+			for i := 0; i < sig.Params().Len(); i++ {
+				if n := namedOf(sig.Params().At(i).Type()); n != nil && n.Obj().Name() == "SwampWaiter" {
+					pi = i
+				}
+			}
+			if pi < 0 {
+				continue
+			}
+			acc := core.Accesses(f.Info(), f.Decl.Body, wfields, true)
+			touches := false
+			for _, a := range acc {
+				if a.Write {
+					touches = true
+				}
+			}
+			if !touches {
+				continue
+			}
+			c.Touch(f)
+			h := &helperSum{f: f, param: pi, uniform: true, paramName: sig.Params().At(pi).Name()}
+			hfl := core.NewFlow(p, f.Info(), f.Decl.Body)
+			var hin, hde []core.Access
+			for _, a := range acc {
+				if !a.Write {
+					continue
+				}
+				switch {
+				case a.Field == countF && (a.Form == "add+" || a.Form == "incdec+"):
+					hin = append(hin, a)
+				case a.Field == countF && (a.Form == "add-" || a.Form == "incdec-"):
+					hde = append(hde, a)
+				case a.Field == countF:
+					h.uniform = false
+				case a.Field == readyF && a.Form == "assign-false":
+					h.clearsRdy = true
+				}
+			}
+			nets := map[int]bool{}
+			delta := func(n ast.Node) (int, bool) {
+				d := 0
+				for _, a := range hin {
+					if n.Pos() <= a.Node.Pos() && a.Node.End() <= n.End() {
+						d++
+					}
+				}
+				for _, a := range hde {
+					if n.Pos() <= a.Node.Pos() && a.Node.End() <= n.End() {
+						d--
+					}
+				}
+				return d, false
+			}
+			// the helper is uniform with net k iff, started at balance -k, every exit is reached at 0
+			found := false
+			for k := -2; k <= 2; k++ {
+				if bad := core.PathBalanceInit(hfl, delta, 0, -k); len(bad) == 0 {
+					h.net = k
+					nets[k] = true
+					found = true
+				}
+			}
+			if !found || len(nets) != 1 {
+				h.uniform = false
+			}
+			helpers[f] = h
+		}
 		fl := core.NewFlow(p, info, sum.Decl.Body)
 		isLit := func(n ast.Node) bool {
 			return core.BodyContaining(sum.Decl, n) != sum.Decl.Body
@@ -361,30 +453,74 @@ func c18(c *core.Ctx) {
 					decs = append(decs, a)
 				case a.Field == countF:
 					rR.Bad(sum.Key+":waiter.count:"+a.Form, a.Node.Pos(), "the reference count is written by something other than +1/-1")
-				case a.Field == slotsF && (a.Form == "method:Delete" || a.Form == "method:LoadAndDelete" || a.Form == "method:Clear" || a.Form == "method:CompareAndDelete"):
+				case isDelForm(a):
 					dels = append(dels, a)
 				}
 			}
 		}
-		if len(dels) == 0 {
+		// helper call sites in SummonSwamp (main body and literals)
+		type hcall struct {
+			call *ast.CallExpr
+			h    *helperSum
+		}
+		var hcalls []hcall
+		for _, body := range core.Bodies(sum.Decl) {
+			core.Calls(body, false, func(call *ast.CallExpr) {
+				if t := p.ByObj[core.Callee(info, call)]; t != nil && helpers[t] != nil {
+					hcalls = append(hcalls, hcall{call, helpers[t]})
+					if !helpers[t].uniform {
+						rR.Bad(sum.Key+"->"+t.Obj.Name()+":summary", call.Pos(), "the helper changes the reference count by different amounts on different paths: not summarised")
+					}
+				}
+			})
+		}
+		helperDeletes := false
+		for _, h := range helpers {
+			for _, a := range core.Accesses(h.f.Info(), h.f.Decl.Body, map[*types.Var]bool{slotsF: true}, true) {
+				if isDelForm(a) {
+					helperDeletes = true
+				}
+			}
+		}
+		if len(dels) == 0 && !helperDeletes {
 			rR.Ok(sum.Key+":waiter.count", sum.Decl.Pos(), "the per-name slot is never deleted: no reference counting needed")
 		} else {
-			// (1) path balance over the CFG of the function body
+			// (1) path balance
+			var deferStmts []*ast.DeferStmt
+			ast.Inspect(sum.Decl.Body, func(x ast.Node) bool {
+				if ds, ok := x.(*ast.DeferStmt); ok && core.BodyContaining(sum.Decl, ds) == sum.Decl.Body {
+					deferStmts = append(deferStmts, ds)
+				}
+				return true
+			})
+			inDefer := func(n ast.Node) *ast.DeferStmt {
+				for _, ds := range deferStmts {
+					if ds.Pos() <= n.Pos() && n.End() <= ds.End() {
+						return ds
+					}
+				}
+				return nil
+			}
 			var deferDec *ast.DeferStmt
 			nDeferDec := 0
 			for _, d := range decs {
 				if isLit(d.Node) {
-					ast.Inspect(sum.Decl.Body, func(x ast.Node) bool {
-						if ds, ok := x.(*ast.DeferStmt); ok && ds.Pos() <= d.Node.Pos() && d.Node.End() <= ds.End() {
-							deferDec = ds
-							nDeferDec++
-						}
-						return true
-					})
+					if ds := inDefer(d.Node); ds != nil {
+						deferDec = ds
+						nDeferDec++
+					}
+				}
+			}
+			for _, hc := range hcalls {
+				if isLit(hc.call) {
+					if ds := inDefer(hc.call); ds != nil {
+						deferDec = ds
+						nDeferDec -= hc.h.net
+					}
 				}
 			}
 			for _, a := range append(append([]core.Access{}, incs...), decs...) {
-				if isLit(a.Node) && !(deferDec != nil && deferDec.Pos() <= a.Node.Pos() && a.Node.End() <= deferDec.End()) {
+				if isLit(a.Node) && inDefer(a.Node) == nil {
 					rR.Bad(sum.Key+":waiter.count:in-literal", a.Node.Pos(), "the reference count is changed inside a function literal that is not the deferred release: not analysable")
 				}
 			}
@@ -402,6 +538,11 @@ func c18(c *core.Ctx) {
 						d--
 					}
 				}
+				for _, hc := range hcalls {
+					if !isLit(hc.call) && n.Pos() <= hc.call.Pos() && hc.call.End() <= n.End() {
+						d += hc.h.net
+					}
+				}
 				return d, false
 			}
 			bad := core.PathBalance(fl, delta, nDeferDec)
@@ -416,58 +557,81 @@ func c18(c *core.Ctx) {
 				seenPos[b.Pos] = true
 				rR.Bad(sum.Key+":waiter.count:balance", b.Pos, "unbalanced reference count on a path to this exit ("+b.Why+"): the count reaches zero - and the per-name slot is deleted - while another caller still uses the waiter (or never reaches zero); a later caller then creates a new waiter and both become owners (two live instances appending to one file)")
 			}
-			// (2) lock discipline for plain (non-atomic) accesses of the waiter's fields
-			wfields := map[*types.Var]bool{countF: true, p.MustField(pkgHydra, "SwampWaiter", "ready"): true}
-			if rf := core.StructFields(mustStruct(p, pkgHydra, "SwampWaiter"))["retired"]; rf != nil {
-				wfields[rf] = true
-			}
-			for _, body := range core.Bodies(sum.Decl) {
-				bfl := core.NewFlow(p, info, body)
-				lk := bfl.LockAnalysis(core.LockSet{})
-				for _, a := range core.Accesses(info, body, wfields, false) {
-					if strings.HasPrefix(a.Form, "add") || a.Form == "store" || a.Form == "cas" || a.Form == "swap" {
-						continue // atomic
+			// (2) lock discipline
+			checkLocks := func(f *core.Func, entryLock string) {
+				fi := f.Info()
+				for _, body := range core.Bodies(f.Decl) {
+					bfl := core.NewFlow(p, fi, body)
+					entry := core.LockSet{}
+					if entryLock != "" && body == f.Decl.Body {
+						entry[entryLock] = 2
 					}
-					if call, isCall := a.Node.(*ast.CallExpr); isCall {
-						if _, at := core.AtomicCall(info, call); at {
+					lk := bfl.LockAnalysis(entry)
+					for _, a := range core.Accesses(fi, body, wfields, false) {
+						if strings.HasPrefix(a.Form, "add") || a.Form == "store" || a.Form == "cas" || a.Form == "swap" {
 							continue
 						}
+						if call, isCall := a.Node.(*ast.CallExpr); isCall {
+							if _, at := core.AtomicCall(fi, call); at {
+								continue
+							}
+						}
+						held, ok := lk.HeldAtNode(a.Node)
+						want := core.ExprStr(a.Sel.X) + ".cond.L"
+						rR.Check(ok && held[want] == 2, f.Key+":"+a.Field.Name()+":"+a.Form+":locked", a.Node.Pos(), "under "+want, "waiter."+a.Field.Name()+" is accessed ("+a.Form+") without holding "+want)
 					}
-					held, ok := lk.HeldAtNode(a.Node)
-					want := core.ExprStr(a.Sel.X) + ".cond.L"
-					rR.Check(ok && held[want] == 2, sum.Key+":"+a.Field.Name()+":"+a.Form+":locked", a.Node.Pos(), "under "+want, "waiter."+a.Field.Name()+" is accessed ("+a.Form+") without holding "+want)
 				}
 			}
-			// (3) deletion guarded by count == 0 and marks the waiter retired; (4) retired tested before the reference is taken
-			retiredF := core.StructFields(mustStruct(p, pkgHydra, "SwampWaiter"))["retired"]
-			for _, d := range dels {
-				body := core.BodyContaining(sum.Decl, d.Node)
+			checkLocks(sum, "")
+			for _, h := range helpers {
+				checkLocks(h.f, h.paramName+".cond.L")
+			}
+			for _, hc := range hcalls {
+				body := core.BodyContaining(sum.Decl, hc.call)
 				bfl := core.NewFlow(p, info, body)
-				l, ok := bfl.Locate(d.Node)
+				lk := bfl.LockAnalysis(core.LockSet{})
+				held, ok := lk.HeldAtNode(hc.call)
+				want := ""
+				if hc.h.param < len(hc.call.Args) {
+					want = core.ExprStr(hc.call.Args[hc.h.param]) + ".cond.L"
+				}
+				rR.Check(ok && held[want] == 2, sum.Key+"->"+hc.h.f.Obj.Name()+":caller-holds-lock", hc.call.Pos(), "called under "+want, "the helper touches the waiter's fields but is called without "+want)
+			}
+			// (3) deletions guarded by count == 0 and marking retired, wherever they are
+			type delSite struct {
+				f *core.Func
+				a core.Access
+			}
+			var allDels []delSite
+			for _, a := range dels {
+				allDels = append(allDels, delSite{sum, a})
+			}
+			for _, h := range helpers {
+				for _, a := range core.Accesses(h.f.Info(), h.f.Decl.Body, map[*types.Var]bool{slotsF: true}, true) {
+					if isDelForm(a) {
+						allDels = append(allDels, delSite{h.f, a})
+					}
+				}
+			}
+			for _, ds := range allDels {
+				fi := ds.f.Info()
+				body := core.BodyContaining(ds.f.Decl, ds.a.Node)
+				bfl := core.NewFlow(p, fi, body)
+				l, ok := bfl.Locate(ds.a.Node)
 				zero := false
 				if ok {
-					for _, f := range bfl.FactsAt(l) {
-						if be, isBin := f.Expr.(*ast.BinaryExpr); isBin && core.FieldOf(info, be.X) == countF {
-							if v, isC := core.ConstInt(info, be.Y); isC && v == 0 && (be.Op == token.EQL) == f.Truth && (be.Op == token.EQL || be.Op == token.NEQ) {
+					for _, ft := range bfl.FactsAt(l) {
+						if be, isBin := ft.Expr.(*ast.BinaryExpr); isBin && core.FieldOf(fi, be.X) == countF {
+							if v, isC := core.ConstInt(fi, be.Y); isC && v == 0 && (((be.Op == token.EQL) == ft.Truth && (be.Op == token.EQL || be.Op == token.NEQ)) || (be.Op == token.LEQ && ft.Truth)) {
 								zero = true
-							}
-							if v, isC := core.ConstInt(info, be.Y); isC && v == 0 && be.Op == token.LEQ && f.Truth {
-								zero = true
-							}
-						}
-						if call, isCall := f.Expr.(*ast.BinaryExpr); isCall && f.Truth && call.Op == token.EQL {
-							if c2, isC2 := core.Unparen(call.X).(*ast.CallExpr); isC2 && core.MentionsField(info, c2, countF) {
-								if v, isC := core.ConstInt(info, call.Y); isC && v == 0 {
-									zero = true
-								}
 							}
 						}
 					}
 				}
-				rR.Check(zero, sum.Key+":slot-delete:guarded-by-zero", d.Node.Pos(), "deleted only when count == 0", "the per-name waiter slot is deleted without a dominating count == 0 test")
+				rR.Check(zero, ds.f.Key+":slot-delete:guarded-by-zero", ds.a.Node.Pos(), "deleted only when count == 0", "the per-name waiter slot is deleted without a dominating count == 0 test")
 				marked := false
 				if retiredF != nil && ok {
-					for _, a := range core.Accesses(info, body, map[*types.Var]bool{retiredF: true}, false) {
+					for _, a := range core.Accesses(fi, body, map[*types.Var]bool{retiredF: true}, false) {
 						if a.Write && a.Form == "assign-true" {
 							if la, ok2 := bfl.Locate(a.Node); ok2 && la.B == l.B {
 								marked = true
@@ -475,8 +639,9 @@ func c18(c *core.Ctx) {
 						}
 					}
 				}
-				rR.Check(marked, sum.Key+":slot-delete:marks-retired", d.Node.Pos(), "retired=true next to the deletion", "the slot is deleted without marking the waiter retired in the same branch: a caller that loaded the waiter before the deletion becomes owner of an orphaned waiter while a new caller owns a fresh one")
+				rR.Check(marked, ds.f.Key+":slot-delete:marks-retired", ds.a.Node.Pos(), "retired=true next to the deletion", "the slot is deleted without marking the waiter retired in the same branch: a caller that loaded the waiter before the deletion becomes owner of an orphaned waiter while a new caller owns a fresh one")
 			}
+			// (4) reference taken only on a waiter tested !retired
 			for _, inc := range incs {
 				if isLit(inc.Node) {
 					continue
@@ -484,14 +649,53 @@ func c18(c *core.Ctx) {
 				li, _ := fl.Locate(inc.Node)
 				tested := false
 				if retiredF != nil {
-					for _, f := range fl.FactsAt(li) {
-						if core.FieldOf(info, f.Expr) == retiredF && !f.Truth {
+					for _, ft := range fl.FactsAt(li) {
+						if core.FieldOf(info, ft.Expr) == retiredF && !ft.Truth {
 							tested = true
 						}
 					}
 				}
 				rR.Check(tested, sum.Key+":take-reference:not-retired", inc.Node.Pos(), "reference taken only on a waiter that is not retired", "the reference is taken without a dominating !retired test: the waiter may already have been removed from the slot map (LoadOrStore and the lock are not atomic)")
 			}
+			// (5) ready is cleared only by the owner: after this caller's own `ready = true`
+			var take ast.Node
+			for _, a := range core.Accesses(info, sum.Decl.Body, map[*types.Var]bool{readyF: true}, false) {
+				if a.Write && a.Form == "assign-true" {
+					take = a.Node
+				}
+			}
+			ownerAt := func(n ast.Node) bool {
+				if take == nil {
+					return false
+				}
+				lt := fl.MustLocate(take)
+				host := n
+				if isLit(n) {
+					ds := inDefer(n)
+					if ds == nil {
+						return false
+					}
+					host = ds
+				}
+				lh, ok := fl.Locate(host)
+				return ok && fl.Dominates(lt, lh)
+			}
+			nClear := 0
+			for _, body := range core.Bodies(sum.Decl) {
+				for _, a := range core.Accesses(info, body, map[*types.Var]bool{readyF: true}, false) {
+					if a.Write && a.Form == "assign-false" {
+						nClear++
+						rR.Check(ownerAt(a.Node), sum.Key+":ready=false:owner-only", a.Node.Pos(), "cleared by the caller that set it", "'ready' is cleared on a path where this caller never became the owner (it did not set ready=true): the real owner is still creating the swamp, the next caller becomes a second owner and a second live instance of the swamp is created")
+					}
+				}
+			}
+			for _, hc := range hcalls {
+				if hc.h.clearsRdy {
+					nClear++
+					rR.Check(ownerAt(hc.call), sum.Key+"->"+hc.h.f.Obj.Name()+":ready=false:owner-only", hc.call.Pos(), "cleared by the caller that set it", "'ready' is cleared (through "+hc.h.f.Obj.Name()+") on a path where this caller never became the owner (it did not set ready=true): the real owner is still creating the swamp, the next caller becomes a second owner and a second live instance of the swamp is created")
+				}
+			}
+			rR.Check(nClear > 0, sum.Key+":ready=false:present", sum.Decl.Pos(), "the owner releases the create section", "'ready' is never cleared: every later caller waits forever")
 		}
 	}
 }
